@@ -1,11 +1,21 @@
 /-
   Driver stream `su` (C15, C16): interprets the `su.*` operations of go/harness/startup.go against the
-  model `Fan2go.Startup` (Model/Startup.lean). Core Lean only.
+  models `Fan2go.Startup` (Model/Startup.lean: WHICH analysis steps a start takes) and `Fan2go.Analysis`
+  (Model/Analysis.lean: WHAT they compute). Core Lean only.
 
   The harness runs the REAL `DefaultFanController.Run` / `RunInitializationSequence` on virtual devices
   with a real bbolt file and classifies the PWM writes it saw before the first curve evaluation
   (`sweep` = the 255 → 0 staircase, `measure` = an ascending staircase); the driver prints the same
-  line from the model's action list and store.
+  line from the action list and store of the data-carrying run `Analysis.startD` / `initD` / `resetD`
+  (whose data-erased image is `Startup.start` / `init` / `reset`: `Proofs/Analysis.lean` `startD_abs`); the two
+  flags `sweep=` / `measure=` are the harness's classification applied to the model's log of PWM writes.
+  `su.data` prints the stored PWM map and RPM curve of a fan, the limits a fresh fan object derives from the
+  stored curve and the device registers; `su.poke` sets the registers; `su.settle` runs `waitForFanToSettle`
+  on a scripted RPM input.
+
+  Per fan the driver state carries the configuration (`FanCfg`: kind, RPM input?, PWM readable?, configured
+  map, neverStop, configured limits), the device parameters (`quant`, `spinat`), the device registers and
+  the stored contents.
 
   Integration into Driver/Main.lean:
     import Driver.StartupStream
@@ -14,15 +24,21 @@
 -/
 import Driver.Proto
 import Fan2go.Model.Startup
+import Fan2go.Model.Analysis
 namespace Driver
-open Fan2go Fan2go.Startup
+open Fan2go Fan2go.Startup Fan2go.Analysis
 
-/-- one declared fan: its declaration and the two database entries of its id -/
+/-- one declared fan: configuration, device, database entries of its id -/
 structure SuFan where
   id : String
-  decl : FanDecl
-  store : Store := {}
+  cfg : FanCfg := {}
+  quant : Int := 0
+  spinAt : Int := 30
+  regs : Regs := {}
+  store : DStore := {}
   deriving Inhabited
+
+def SuFan.phys (f : SuFan) : Phys := harnessPhys f.quant f.spinAt
 
 structure StartupDrvSt where
   opened : Bool := false
@@ -32,8 +48,11 @@ structure StartupDrvSt where
 
 def StartupDrvSt.find? (st : StartupDrvSt) (id : String) : Option SuFan := st.fans.find? (·.id == id)
 
-def StartupDrvSt.setStore (st : StartupDrvSt) (id : String) (s : Store) : StartupDrvSt :=
-  { st with fans := st.fans.map fun f => if f.id == id then { f with store := s } else f }
+def StartupDrvSt.update (st : StartupDrvSt) (id : String) (g : SuFan → SuFan) : StartupDrvSt :=
+  { st with fans := st.fans.map fun f => if f.id == id then g f else f }
+
+def StartupDrvSt.setOut (st : StartupDrvSt) (id : String) (o : DOut) : StartupDrvSt :=
+  st.update id fun f => { f with store := o.store, regs := o.regs }
 
 def b01 (b : Bool) : String := if b then "1" else "0"
 
@@ -42,16 +61,86 @@ def suStored (s : Store) : String := s!"rpm={b01 s.rpm} map={b01 s.map.isSome}"
 def suOutLine (o : Out) : String :=
   s!"res={if o.ok then "ok" else "err"} sweep={b01 o.swept} measure={b01 o.measured} {suStored o.store}"
 
-def suDecl (a : KV) : FanDecl :=
+/-! the harness's classification of the PWM writes of one operation that precede the first curve evaluation
+    (`suClassify` in go/harness/startup.go), on the model's event log -/
+
+/-- the values of the PWM writes before the first `eval`, oldest first -/
+def suWrites (r : Regs) : List Int :=
+  let rec go : List DevEv → List Int
+    | [] => []
+    | .eval :: _ => []
+    | .pwm v :: rest => v :: go rest
+    | .mode _ :: rest => go rest
+  go r.log.reverse
+
+/-- `vals` starts with 255, 254, …, 55 -/
+def suDescFrom (vals : List Int) : Bool :=
+  (vals.take 201) == (List.range 201).map (fun (j : Nat) => (255 : Int) - (j : Int))
+
+/-- sweep: a run of > 200 consecutive values descending from 255 somewhere -/
+def suIsSweep : List Int → Bool
+  | [] => false
+  | v :: rest => suDescFrom (v :: rest) || suIsSweep rest
+
+/-- measurement: a run of >= 4 strictly ascending values -/
+def suIsMeasure (vals : List Int) : Bool :=
+  let rec go : List Int → Int → Nat → Bool
+    | [], _, _ => false
+    | v :: rest, prev, run =>
+      let run' := if v > prev then run + 1 else 1
+      run' ≥ 4 || go rest v run'
+  match vals with
+  | [] => false
+  | v :: rest => go rest v 1
+
+def suFlags (o : DOut) : Bool × Bool := (suIsSweep (suWrites o.regs), suIsMeasure (suWrites o.regs))
+
+def suDOutLine (o : DOut) : String :=
+  let (sw, me) := suFlags o
+  let res := match o.crash with
+    | some s => s!"panic:{panicClass s}"
+    | none => if o.ok then "ok" else "err"
+  s!"res={res} sweep={b01 sw} measure={b01 me} {suStored o.abs.store}"
+
+/-- the configured maps of the harness (`mapstyle`) -/
+def suCfgMap (style : String) : List (Int × Int) :=
+  match style with
+  | "plateau" => [(0, 0), (40, 0), (80, 64), (120, 64), (160, 128), (200, 128), (230, 255), (255, 255)]
+  | "shifted" => [(0, 10), (60, 70), (120, 130), (180, 190), (255, 250)]
+  | _ => [(0, 0), (64, 64), (128, 128), (192, 192), (255, 255)]
+
+def suCfg (a : KV) : FanCfg :=
+  let mm := a.bool "minmax" false
   { kind := match a.str "kind" "hwmon" with
       | "file" => .file
       | "cmd" => .cmd
       | _ => .hwmon,
     hasRpm := a.bool "hasrpm" true,
-    pwmRead := true,          -- the harness's devices always answer PWM reads
-    cfgMap := a.bool "cfgmap" false,
-    minMax := a.bool "minmax" false,
-    devOk := true }           -- … and never fail during the measurement loop
+    pwmRead := a.bool "pwmread" true,
+    cfgMap := if a.bool "cfgmap" false then some (suCfgMap (a.str "mapstyle" "identity")) else none,
+    neverStop := a.bool "ns" false,
+    cfgMin := if mm then some 40 else none,
+    cfgStart := a.optInt "startpwm",
+    cfgMax := if mm then some 200 else none }
+
+def suLimits (f : SuFan) : String :=
+  match f.store.rpm with
+  | none => "-"
+  | some d =>
+    match limitsOf indefAmd64 f.cfg d with
+    | some (mn, st, mx) => s!"{mn}/{st}/{mx}"
+    | none => "err"
+
+def suDataLine (f : SuFan) : String :=
+  s!"map={fmtIntMap (f.store.map.map (·.2))} rpm={fmtFloatMap f.store.rpm} lim={suLimits f} " ++
+  s!"reg={f.regs.pwm}/{f.regs.rpm}/{f.regs.mode}"
+
+/-- `rpms=<v|e>,…`: the value of the n-th poll, the last token repeated for ever -/
+def suReadings (s : String) : Nat → Option Int :=
+  let toks := (s.splitOn ",").toArray
+  fun n =>
+    let t := if n < toks.size then toks[n]! else toks[toks.size - 1]!
+    if t == "e" then none else some ((parseInt? t).getD 0)
 
 def startupStep (st : StartupDrvSt) (op : String) (a : KV) : StartupDrvSt × String :=
   match op with
@@ -60,28 +149,58 @@ def startupStep (st : StartupDrvSt) (op : String) (a : KV) : StartupDrvSt × Str
     ({ opened := true, parallel := a.bool "parallel" true, fans := [] }, "ok")
   | "su.fan" =>
     let id := a.str "fan" "f1"
-    -- re-declaring an id keeps the database entries of that id
+    -- re-declaring an id keeps the database entries of that id; the device is a new one
     let old := match st.find? id with | some f => f.store | none => {}
-    let f : SuFan := { id := id, decl := suDecl a, store := old }
+    let f : SuFan := { id := id, cfg := suCfg a, quant := a.int "quant" 0, spinAt := a.int "spinat" 30, store := old }
     ({ st with fans := (st.fans.filter (·.id != id)) ++ [f] }, "ok")
   | "su.start" =>
     match st.find? (a.str "fan" "f1") with
     | none => (st, "bad-op")
     | some f =>
-      let o := start f.decl f.store
-      (st.setStore f.id o.store, suOutLine o)
+      let o := startD indefAmd64 f.phys f.cfg f.store { f.regs with log := [] }
+      (st.setOut f.id o, suDOutLine o)
   | "su.reset" =>
     match st.find? (a.str "fan" "f1") with
     | none => (st, "bad-op")
     | some f =>
-      let o := reset f.decl f.store
-      (st.setStore f.id o.store, "ok " ++ suStored o.store)
+      let o := resetD f.cfg f.regs
+      (st.setOut f.id o, "ok " ++ suStored o.abs.store)
+  | "su.delmap" =>
+    match st.find? (a.str "fan" "f1") with
+    | none => (st, "bad-op")
+    | some f =>
+      let s : DStore := { f.store with map := none }
+      (st.update f.id fun f => { f with store := s }, "ok " ++ suStored s.abs)
   | "su.init" =>
     match st.find? (a.str "fan" "f1") with
     | none => (st, "bad-op")
     | some f =>
-      let o := init f.decl f.store
-      (st.setStore f.id o.store, suOutLine o)
+      let o := initD indefAmd64 f.phys f.cfg { f.regs with log := [] }
+      (st.setOut f.id o, match o.crash with | some s => s!"panic:{panicClass s}" | none => suDOutLine o)
+  | "su.poke" =>
+    match st.find? (a.str "fan" "f1") with
+    | none => (st, "bad-op")
+    | some f =>
+      let p := a.int "pwm" f.regs.pwm
+      let r : Regs := { pwm := p, rpm := f.phys.rpmOf p, mode := a.int "mode" f.regs.mode }
+      (st.update f.id fun f => { f with regs := r }, "ok")
+  | "su.dev" =>
+    match st.find? (a.str "fan" "f1") with
+    | none => (st, "bad-op")
+    | some f => (st, s!"pwm={f.regs.pwm} mode={f.regs.mode}")
+  | "su.data" =>
+    match st.find? (a.str "fan" "f1") with
+    | none => (st, "bad-op")
+    | some f => (st, suDataLine f)
+  | "su.settle" =>
+    match st.find? (a.str "fan" "f1") with
+    | none => (st, "bad-op")
+    | some f =>
+      -- a fan without RPM input: every `GetRpm` fails (missing file / empty path)
+      let rd : Nat → Option Int := if f.cfg.hasRpm then suReadings (a.str "rpms" "0") else fun _ => none
+      match settle (a.f64 "thr" (F64.ofInt 20)) rd (a.int "limit" 200).toNat with
+      | some n => (st, s!"polls={n}")
+      | none => (st, "hang")
   | "su.together" =>
     -- several controllers started concurrently: the decisions of each depend on its own fan id only;
     -- `overlap=0` is what C16 promises for parallel=0 (for parallel=1 the harness's value depends on the
@@ -92,8 +211,9 @@ def startupStep (st : StartupDrvSt) (op : String) (a : KV) : StartupDrvSt × Str
       match s.find? id with
       | none => (s, rs ++ ["bad-fan"], n)
       | some f =>
-        let o := start f.decl f.store
-        (s.setStore f.id o.store, rs ++ [if o.ok then "ok" else "err"], if o.analysed then n + 1 else n))
+        let o := startD indefAmd64 f.phys f.cfg f.store { f.regs with log := [] }
+        let (sw, me) := suFlags o
+        (s.setOut f.id o, rs ++ [if o.ok then "ok" else "err"], if sw || me then n + 1 else n))
       (st, [], 0)
     (st', s!"res={",".intercalate res} analysed={n} overlap=0")
   | _ => (st, "bad-op")
